@@ -262,7 +262,7 @@ func c19ClientMethod(c *kit.Ctx, m *c19Model, r *kit.Rule, f *kit.Func) int {
 	mkStd := func() *kit.Std {
 		st := &kit.Std{F: f}
 		st.Eval.Atom = func(e ast.Expr) (string, bool, bool) {
-			e = ast.Unparen(e)
+			e = ast.Unparen(mbCond(f, e))
 			if a, b, op, ok := kit.CmpAtom(e); ok && (op == token.NEQ || op == token.EQL) {
 				if (isFld(a, respVar, m.FcField) && isFld(b, reqVar, m.FcField)) || (isFld(b, respVar, m.FcField) && isFld(a, reqVar, m.FcField)) {
 					return "fcne", op == token.EQL, true
